@@ -10,8 +10,10 @@
   (`InRange_of_lt`: `< 10^45000` suffices; `InRange_iff`: `< 2^150000`).  The hypothesis is necessary, not a proof
   convenience: `Num.ilog10` estimates `⌊log10 n⌋` by `n.log2·1233/4096` plus one correction step, the estimate drifts by
   `log10 2 − 1233/4096 ≈ 4.6·10⁻⁶` per bit and is short by two from `n.log2 ≈ 151 838` on; `Num_ilog10_fails_beyond`
-  exhibits `ilog10 (10^45827) = 45826`.  Beyond the bound the model's `round35` keeps one digit too few for large
-  denominators (relative error up to `5·10⁻³⁴`), so an unconditional `∀ x` statement is false for the model.
+  exhibits `ilog10 (10^45827) = 45826`.  Beyond the bound the model's `round35` can keep one digit too few when the
+  denominator's digit count is under-estimated (relative error up to `5·10⁻³⁴`): `Num_round35_rel_err_fails_beyond`
+  proves `|round35 x − x| > 5·10⁻³⁵·|x|` for `x = 1/(1.24·10^60000)`, so an unconditional `∀ x` statement is false for
+  the model (CPython itself rounds such numbers correctly: there the model and the implementation differ).
 
   WHY THE BOUND COVERS WHAT THE CODE CAN REPRESENT IN PRACTICE, AND WHERE IT DOES NOT.  A `Decimal` under `prec = 35` is
   `±c·10^e` with `c < 10^35`; CPython allows `|e|` up to `Emax = 999 999`.  The exact results the model rounds are
@@ -30,6 +32,8 @@
   context on the whole range and satisfies the ε-hypotheses for *all* rationals (`Num_pyG_rnd`, `Num_pyG_dsqrt`).
 -/
 import Proofs.Lemmas.Round35Ctx
+import Proofs.Lemmas.Round35Beyond
+import Proofs.Lemmas.Round35Pow
 namespace Demeter
 open Demeter.Numerics
 set_option exponentiation.threshold 200000
@@ -46,11 +50,9 @@ theorem Num_ilog10_fails_beyond : ilog10 (10 ^ 45827) = 45826 := by
   have h1 : (2:ℕ) ^ 152233 ≤ 10 ^ 45827 := by decide +kernel
   have h2 : (10:ℕ) ^ 45827 < 2 ^ (152233 + 1) := by decide +kernel
   have hL : ((10:ℕ) ^ 45827).log2 = 152233 := (Nat.log2_eq_iff hne).2 ⟨h1, h2⟩
-  unfold ilog10 pow10
-  rw [if_neg hne, hL]
   have h3 : (10:ℕ) ^ (152233 * 1233 / 4096 + 1) ≤ 10 ^ 45827 :=
     Nat.pow_le_pow_right (by decide) (by decide)
-  simp only [h3, if_true]
+  rw [ilog10_eval _ _ hne hL, if_pos h3]
 
 /-- `e = sigExp p n d` normalises `n/d` to `p` digits: `10^(p−1) ≤ (n/d)/10^e < 10^p`, on the pair from `scale10` -/
 theorem Num_sigExp_spec (p n d : ℕ) (hp : 0 < p) (hn : 0 < n) (hd : 0 < d)
@@ -63,6 +65,13 @@ theorem Num_sigExp_spec (p n d : ℕ) (hp : 0 < p) (hn : 0 < n) (hd : 0 < d)
 /-- **relative error of CPython's 35-digit rounding**: `|round35 x − x| ≤ 5·10⁻³⁵·|x|` -/
 theorem Num_round35_rel_err (x : ℚ) (hr : InRange x) :
     |round35 x - x| ≤ 5 / 10 ^ 35 * |x| := round35_rel_err x hr
+
+/-- … and the hypothesis `InRange x` is necessary: outside the range the *model's* rounding (not CPython's) keeps one digit
+    too few — `x = 1/(1.24·10^60000)`, relative error `6.0·10⁻³⁵` -/
+theorem Num_round35_rel_err_fails_beyond :
+    ¬ InRange (1 / (bigD : ℚ)) ∧
+    ¬ |round35 (1 / (bigD : ℚ)) - 1 / (bigD : ℚ)| ≤ 5 / 10 ^ 35 * |1 / (bigD : ℚ)| :=
+  ⟨bigD_not_InRange, round35_rel_err_fails_beyond⟩
 
 /-- general precision: `|roundSig p x − x| ≤ (1/2)·10^(1−p)·|x|` -/
 theorem Num_roundSig_rel_err (p : ℕ) (x : ℚ) (hr : InRange x) :
@@ -106,6 +115,13 @@ theorem Num_sqrtSig_spec (p : ℕ) (hp : 1 ≤ p) (hp' : p ≤ 22000) (x : ℚ) 
       sqrtSig p x ^ 2 ≤ x * (1 + 1 / 2 * (10:ℚ) ^ (1 - (p : ℤ))) ^ 2 := sqrtSig_spec' p hp hp' hx hr
 
 theorem Num_dsqrt35_nonpos (x : ℚ) (hx : x ≤ 0) : dsqrt35 x = 0 := dsqrt35_nonpos hx
+
+/-! ### `Decimal ** 2` -/
+
+/-- exactly the shape of `Approx.sq` (for `x²` in range) -/
+theorem Num_dpow35_sq_bounds (x : ℚ) (h1 : (x * x).num.natAbs < 10 ^ 45000) (h2 : (x * x).den < 10 ^ 45000) :
+    x * x * (1 - 5 / 10 ^ 35) ^ 2 ≤ dpowNat 35 x 2 ∧ dpowNat 35 x 2 ≤ x * x * (1 + 5 / 10 ^ 35) ^ 2 :=
+  dpowNat35_two_bounds x h1 h2
 
 /-! ### the guarded context: ε-hypotheses for all rationals -/
 
